@@ -1,4 +1,4 @@
 #!/bin/bash
-# tools_scratch.sh : (re)create /tmp/seedrepo, a scratch worktree of /repo's HEAD, for seeded-change experiments.
+# tools_scratch.sh : (re)create ${SEEDREPO:-/tmp/seedrepo}, a scratch worktree of /repo's HEAD, for seeded-change experiments.
 # Seeded changes are applied there, never to /repo, so registered checks running against /repo are not disturbed.
-if [ -d /tmp/seedrepo ]; then git -C /tmp/seedrepo checkout -q -- . && git -C /tmp/seedrepo clean -fdq && git -C /tmp/seedrepo checkout -q --detach $(git -C /repo rev-parse HEAD); else git -C /repo worktree add -q --detach /tmp/seedrepo HEAD; fi
+if [ -d ${SEEDREPO:-/tmp/seedrepo} ]; then git -C ${SEEDREPO:-/tmp/seedrepo} checkout -q -- . && git -C ${SEEDREPO:-/tmp/seedrepo} clean -fdq && git -C ${SEEDREPO:-/tmp/seedrepo} checkout -q --detach $(git -C /repo rev-parse HEAD); else git -C /repo worktree add -q --detach ${SEEDREPO:-/tmp/seedrepo} HEAD; fi
